@@ -196,6 +196,37 @@ static void continuous_families(unsigned long long& unit)
 			prevc = c;
 		}
 	}
+	// the argument -0.0 is the number zero: every density and distribution function takes the same value there as at +0.0
+	if(mc::mine(unit++))
+	{
+		std::vector<std::pair<std::string, std::function<double(double)>>> Z;
+		for(auto w : std::vector<std::vector<double>>{{1}, {0.5, 0.5}, {0.25, 0.5, 0.25}, {0.1, 0.2, 0.3, 0.4}, {0, 0, 1}})
+		{
+			Z.push_back({"CDF_Chi_Bar_Square(" + mc::decv(w) + ")", [w](double x) { return CDF_Chi_Bar_Square(x, w); }});
+			Z.push_back({"PDF_Chi_Bar_Square(" + mc::decv(w) + ")", [w](double x) { return PDF_Chi_Bar_Square(x, w); }});
+		}
+		for(double dof : {0.0, 1.0, 2.0, 3.5, 400.0})
+		{
+			Z.push_back({"CDF_Chi_Square(dof=" + mc::dec(dof) + ")", [dof](double x) { return CDF_Chi_Square(x, dof); }});
+			if(dof >= 2) Z.push_back({"PDF_Chi_Square(dof=" + mc::dec(dof) + ")", [dof](double x) { return PDF_Chi_Square(x, dof); }});
+		}
+		Z.push_back({"CDF_Exponential(2)", [](double x) { return CDF_Exponential(x, 2.0); }});
+		Z.push_back({"PDF_Exponential(2)", [](double x) { return PDF_Exponential(x, 2.0); }});
+		Z.push_back({"CDF_Maxwell_Boltzmann(1.5)", [](double x) { return CDF_Maxwell_Boltzmann(x, 1.5); }});
+		Z.push_back({"PDF_Maxwell_Boltzmann(1.5)", [](double x) { return PDF_Maxwell_Boltzmann(x, 1.5); }});
+		Z.push_back({"CDF_Gauss(0,1)", [](double x) { return CDF_Gauss(x, 0.0, 1.0); }});
+		Z.push_back({"PDF_Gauss(0,1)", [](double x) { return PDF_Gauss(x, 0.0, 1.0); }});
+		Z.push_back({"CDF_Uniform(0,2)", [](double x) { return CDF_Uniform(x, 0.0, 2.0); }});
+		Z.push_back({"PDF_Uniform(0,2)", [](double x) { return PDF_Uniform(x, 0.0, 2.0); }});
+		Z.push_back({"CDF_Uniform(-1,0)", [](double x) { return CDF_Uniform(x, -1.0, 0.0); }});
+		for(auto& z : Z)
+		{
+			double a = NAN, b = NAN;
+			if(mc::library_exits([&]() { a = z.second(0.0); b = z.second(-0.0); })) { fail("continuous", z.first + ",x=-0", "terminated_process", "the argument -0.0 ended the process"); continue; }
+			g_cases++;
+			if(!(a == b)) fail("continuous", z.first + ",x=-0", "negative_zero_differs_from_zero", "value at +0.0 = " + mc::dec(a) + ", at -0.0 = " + mc::dec(b));
+		}
+	}
 }
 
 static void discrete_families(unsigned long long& unit)
